@@ -9,6 +9,19 @@ for f in sorted(glob.glob(os.path.join(H, 'evidence', 'C*.json'))):
     rows.append('| %s | %s | %d | %d | %d | %d | %.0f s | %s |' % (e['property_id'], e['level'], c.get('cases', 0), c['evaluations'],
                 c['distinct_nontrivial'], c.get('distinct_outcomes', 0), e['wall_s'], c.get('transport', '')))
 rep = rep.replace('@@EVIDENCE@@', '\n'.join(rows))
+import importlib, sys
+sys.path.insert(0, H)
+br = []
+for i in range(1, 21):
+    m = importlib.import_module('fsx.props.c%02d' % i)
+    q, t = m.bounds('quick'), m.bounds('thorough')
+    def sh(v):
+        v = json.dumps(v) if not isinstance(v, str) else v
+        return v.replace('|', '\\|')
+    qs = '; '.join('%s = %s' % (a, sh(b)) for a, b in q.items())
+    ts = '; '.join('%s = %s' % (a, sh(b)) for a, b in t.items() if q.get(a) != b) or '(same space; only the layer sizes grow)'
+    br.append('| %s | %s | %s |' % (m.ID, qs, ts))
+rep = rep.replace('@@BOUNDS@@', '\n'.join(br))
 k = json.load(open(os.path.join(H, 'known_findings.json')))
 fr = []
 for e in k['findings']:
